@@ -531,11 +531,32 @@ def install(rec):
     # ---- expec_TN_1D -----------------------------------------------------
     def pre_expec(*tns, compress=None, eps=1e-15):
         from ..ref import value as refv
+        # the function aligns its operands itself (bra sites - upper/lower of each
+        # operator in turn - ket sites, whatever the index names are): the
+        # reference does the same by position, not by name
         ops = []
+        last = len(tns) - 1
         for n_, tn in enumerate(tns):
             inner = set(tn.inner_inds())
+            link = {}
+            for st in tn.sites:
+                if hasattr(tn, "upper_ind_id"):
+                    link[tn.upper_ind(st)] = ("lnk", n_ - 1, st)
+                    link[tn.lower_ind(st)] = ("lnk", n_, st)
+                elif hasattr(tn, "site_ind_id"):
+                    link[tn.site_ind(st)] = ("lnk", 0 if n_ == 0 else n_ - 1, st)
+            if not hasattr(tn, "upper_ind_id") and n_ not in (0, last):
+                return None
             for t in tn.tensor_map.values():
-                ops.append((to_numpy(t.data), tuple((n_, ix) if ix in inner else ix for ix in t.inds)))
+                ixs = []
+                for ix in t.inds:
+                    if ix in inner:
+                        ixs.append((n_, ix))
+                    elif ix in link:
+                        ixs.append(link[ix])
+                    else:
+                        return None
+                ops.append((to_numpy(t.data), tuple(ixs)))
         ex = sum(exponent_of(tn) for tn in tns)
         try:
             v, sc = refv.value_and_scale(ops, ex, (), MAXV * 16)
